@@ -254,10 +254,34 @@ theorem notJoinable_none {ir : IR} {b1 b2 : Block} (h : ir.notJoinable b1 b2 = n
       · cases h
       · split at h
         · cases h
-        · rename_i h7
-          right
+        · split at h
+          · cases h
+          · rename_i h7
+            right
+            intro y hy hr
+            have : ¬ ((ir.refsTo b2.id).any (fun s => !s.atEnd)) = true := h7
+            simp only [IR.refsTo, List.any_eq_true, List.mem_filter, not_exists, not_and] at this
+            have := this y ⟨hy, by simp [hr]⟩
+            simpa using this
+
+/-- blocks are only joined when no label stands at the end of the first one, unless one of the two is empty:
+a label at the end of block1 never ends up behind bytes of block2 -/
+theorem notJoinable_none_end {ir : IR} {b1 b2 : Block} (h : ir.notJoinable b1 b2 = none) :
+    b1.size = 0 ∨ b2.size = 0 ∨ ∀ y ∈ ir.syms, y.ref = .block b1.id → y.atEnd = false := by
+  unfold IR.notJoinable at h
+  split at h
+  · cases h
+  · split at h
+    · rename_i h5; left; simpa using h5
+    · split at h
+      · cases h
+      · rename_i h6
+        by_cases hz : b2.size = 0
+        · exact Or.inr (Or.inl hz)
+        · right; right
           intro y hy hr
-          have : ¬ ((ir.refsTo b2.id).any (fun s => !s.atEnd)) = true := h7
+          have : ¬ ((ir.refsTo b1.id).any (·.atEnd)) = true := by
+            intro hc; apply h6; simp [hz, hc]
           simp only [IR.refsTo, List.any_eq_true, List.mem_filter, not_exists, not_and] at this
           have := this y ⟨hy, by simp [hr]⟩
           simpa using this
